@@ -568,6 +568,7 @@ int Run::submit(int kind, int name_sel, int type_sel, int reaction, int react_ki
         if (!v6) { auto *s = (sockaddr_in *)&ss; s->sin_family = AF_INET; memcpy(&s->sin_addr, a, 4); s->sin_port = htons(80); sl = sizeof *s; }
         else { auto *s = (sockaddr_in6 *)&ss; s->sin6_family = AF_INET6; memcpy(&s->sin6_addr, a, 16); s->sin6_port = htons(443); sl = sizeof *s; }
         int fl = ARES_NI_LOOKUPHOST | ((fam_sel & 2) ? ARES_NI_LOOKUPSERVICE : 0) | ((fam_sel & 4) ? ARES_NI_NAMEREQD : 0);
+        reqs[(size_t)token].ai_flags = fl;
         ares_getnameinfo(c.ch, (struct sockaddr *)&ss, sl, fl, cb_nameinfo, arg);
       }
       break;
